@@ -38,12 +38,6 @@ Qed.
 (* ------------------------------------------------------------------------------------------------ *)
 (* position / index / remove as find / remove_first *)
 
-Fixpoint remove_first (f : item -> bool) (d : list item) : list item :=
-  match d with
-  | [] => []
-  | x :: d' => if f x then d' else x :: remove_first f d'
-  end.
-
 Lemma position_find : forall r h d,
   match position r h d with
   | Some i => exists it, nth_error d i = Some it /\ find (key_match r h) d = Some it
@@ -1158,4 +1152,78 @@ Proof.
     - destruct SE as (c1 & S & SE). destruct (IH _ SE) as (c2 & S2 & G). exists c2. split; [|assumption].
       cbn [seq_exec]. exists c1. auto. }
   apply seq_exec_run in S1. eapply get_latest; eassumption.
+Qed.
+
+(* ------------------------------------------------------------------------------------------------ *)
+(* exact behaviour: what a lookup finds, and what a store leaves in the cache *)
+
+Lemma find_unique : forall r h d it, NoDup (map item_key d) -> In it d -> item_key it = (r, h) ->
+  find (key_match r h) d = Some it.
+Proof.
+  intros r h. induction d as [|x d IH]; intros it Hnd Hin K; [contradiction|].
+  cbn [map] in Hnd. inversion Hnd as [|? ? Hn Hd]; subst. cbn [find].
+  destruct Hin as [->|Hin].
+  - assert (E : key_match r h it = true) by (apply key_match_spec; assumption). rewrite E. reflexivity.
+  - destruct (key_match r h x) eqn:E.
+    + exfalso. apply key_match_spec in E. apply Hn. rewrite E, <- K. apply in_map. assumption.
+    + apply IH; assumption.
+Qed.
+
+(* a lookup hits exactly when the (unique) entry for the key is present and not older than the time limit *)
+Theorem get_hit_iff : forall lim tl ops c r h now it,
+  snd (run (empty lim tl) ops) = Ok c ->
+  (get c r h now = Ok (Some it) <->
+   In it (c_data c) /\ item_key it = (r, h) /\ i_time it <= now /\ now - i_time it <= tl).
+Proof.
+  intros lim tl ops c r h now it R. destruct (invariants _ _ _ _ R) as (_ & _ & Hnd & _ & TL). split.
+  - intro G. apply get_some in G. rewrite TL in G. exact G.
+  - intros (Hin & K & T1 & T2). rewrite get_find, (find_unique _ _ _ _ Hnd Hin K).
+    assert (E1 : now <? i_time it = false) by (apply N.ltb_ge; assumption). rewrite E1.
+    assert (E2 : c_tlimit c <? now - i_time it = false) by (apply N.ltb_ge; rewrite TL; assumption). rewrite E2.
+    reflexivity.
+Qed.
+
+(* the eviction loop stops as soon as the value fits *)
+Lemma evict_minimal : forall d size len lim s' d' pre x,
+  evict size len lim d = Ok (s', d') -> d = (pre ++ [x]) ++ d' -> size = total d ->
+  lim < ilen x + total d' + len.
+Proof.
+  induction d as [|y d IH]; intros size len lim s' d' pre x H E Hs; cbn [evict] in H.
+  - destruct pre; discriminate.
+  - cbn [total] in Hs. destruct (lim <? size + len) eqn:L.
+    + destruct (size <? ilen y) eqn:L2; [discriminate|].
+      destruct pre as [|p pre]; cbn [app] in E; inversion E; subst.
+      * (* x is the last evicted entry: the test was true with x still present *)
+        apply N.ltb_lt in L. lia.
+      * eapply (IH _ _ _ _ _ pre x H); [reflexivity | lia].
+    + (* nothing evicted, so d = d' and pre ++ [x] must be empty *)
+      inversion H; subst. exfalso.
+      assert (Hl : length ((pre ++ [x]) ++ y :: d) = length (y :: d)) by (rewrite <- E; reflexivity).
+      rewrite !app_length in Hl. cbn in Hl. lia.
+Qed.
+
+(* store: entries are dropped oldest first, no more than needed for the new value to fit (counted before the old
+   entry for the same key is removed), then the old entry for the key is removed and the new one goes to the back *)
+Theorem set_shape : forall lim tl ops c r h v m now c',
+  snd (run (empty lim tl) ops) = Ok c ->
+  set c r h v m now = Ok c' ->
+  exists evicted kept,
+    c_data c = evicted ++ kept /\
+    c_data c' = remove_first (key_match r h) kept ++ [mkItem r h m now v] /\
+    total kept + blen v <= lim /\
+    (forall evicted' x, evicted = evicted' ++ [x] -> lim < ilen x + total kept + blen v).
+Proof.
+  intros lim tl ops c r h v m now c' R S.
+  destruct (run_inv _ _ _ (inv_empty lim tl) R) as ((Hs & _) & L1 & _). cbn in L1.
+  unfold set in S.
+  destruct (evict (c_size c) (blen v) (c_limit c) (c_data c)) as [[s1 d1]|e|w] eqn:E; try discriminate.
+  pose proof (evict_total (c_data c) (c_size c) (blen v) (c_limit c) Hs) as ET. rewrite E in ET.
+  destruct ET as (T1 & T2 & pre & D).
+  exists pre, d1. split; [assumption|]. split.
+  - rewrite remove_existing_find in S.
+    destruct (find (key_match r h) d1) as [old|] eqn:F.
+    + destruct (s1 <? ilen old); [discriminate|]. inversion S; subst. reflexivity.
+    + inversion S; subst. cbn [c_data]. rewrite (remove_first_none _ _ F). reflexivity.
+  - split; [rewrite <- L1; lia|]. intros pre' x ->. rewrite <- L1.
+    eapply evict_minimal; [exact E | exact D | exact Hs].
 Qed.
